@@ -44,6 +44,8 @@ type injector struct {
 	// certFn, when set, certifies snapshots from a dynamic membership view
 	// instead of the static genesis key vector.
 	certFn func(s *common.Snapshot) *crypto.CosiSignature
+	// forceExternal, when set, is the external reference of the next round opened.
+	forceExternal *extRef
 }
 
 func newInjector(c *cluster.Cluster, rng *core.Rng) (*injector, error) {
@@ -253,6 +255,9 @@ func (inj *injector) nextWith(chainIdx int, newRound bool, tx *common.VersionedT
 		// close the head round and open the next one
 		_, final := roundHashRef(ch.id, ch.number, ch.snaps)
 		ext := inj.pickExternal(ch)
+		if inj.forceExternal != nil {
+			ext = inj.forceExternal
+		}
 		if ext == nil {
 			return nil, fmt.Errorf("no external round available")
 		}
